@@ -218,6 +218,11 @@ def gen(rng: Rng, tier, i):
     lng = rng.fork("long")
     if lng.chance(0.04):      # something that only matters after many iterations
         ops[0]["n"] = lng.pick([12, 30, 60, 110])
+        if tier == "thorough" and lng.chance(0.12):
+            # beyond a thousand recorded iterations (thorough tier only: ~30 s per run); no per-iteration
+            # snapshots, they would dominate
+            ops[0]["n"] = 1003
+            cfg["snapshots"] = None
     for j in range(rng.pick([2, 3, 4, 5])):
         r = rng.fork(("op", j))
         k = r.weighted([("recon", 4), ("reload", 4), ("clone", 2), ("clone_fallback", 1),
@@ -495,6 +500,8 @@ def run(plan):
                 bump(probes, "opt_extra_" + a)
     if plan["ops"][0].get("n", 0) >= 12:
         bump(probes, "long_first_segment")
+    if plan["ops"][0].get("n", 0) > 1000:
+        bump(probes, "more_than_1000_iterations")
     if not cfg.get("autograd", True):
         bump(probes, "analytic_gradients")
     if cfg.get("val_ratio"):
